@@ -62,9 +62,10 @@ static int mode0(int argc, char **argv){
 
 struct Model {
   int d, outs; std::mutex m; std::map<std::vector<double>, int> ids; std::map<std::vector<double>, int> count; std::map<std::vector<double>, std::vector<double>> vals;
-  std::vector<std::atomic<int>> busy; bool overlap = false; int total = 0; bool symbolic; int latency = 0;
+  std::vector<std::atomic<int>> busy; bool overlap = false; int total = 0; bool symbolic; int latency = 0; int max_tid = -1; std::atomic<int> bad_tid{0};   // max_tid: largest documented thread id (-1: not checked)
   Model(int dims, int o, int threads, bool sym) : d(dims), outs(o), busy(threads + 1), symbolic(sym) { for (auto &b : busy) b = 0; }
   void eval(const double *x, double *y, size_t tid){
+    if (max_tid >= 0 && tid > (size_t) max_tid) bad_tid = 1;
     if (tid < busy.size()){ if (busy[tid].fetch_add(1) != 0) overlap = true; }
     std::vector<double> p(x, x + d); int slow = 0;
     { std::lock_guard<std::mutex> lk(m);
@@ -130,12 +131,13 @@ int main(int argc, char **argv){
     final_checks(grid, mod, parallel ? "parallel constructSurrogate" : "sequential constructSurrogate");
   } else {
     int threads = atoi(argv[3]);
-    Model mod(d, g.outputs, threads, g.family != "wavelet");
+    Model mod(d, g.outputs, threads, g.family != "wavelet"); mod.max_tid = threads > 0 ? threads - 1 : 0; mod.latency = argc > 4 ? atoi(argv[4]) : 0;
     int needed = grid.getNumNeeded();
     auto model = [&](double const x[], double y[], size_t tid)->void{ mod.eval(x, y, tid); };
     if (threads > 0) loadNeededValues<mode_parallel>(model, grid, (size_t) threads); else loadNeededValues<mode_sequential>(model, grid, 1);
     fpsym_check(mod.total == needed && (int) mod.count.size() == needed, "threaded loadNeededValues evaluates every needed point exactly once");
     fpsym_check(grid.getNumLoaded() == needed && grid.getNumNeeded() == 0, "threaded loadNeededValues loads all needed points");
+    fpsym_check(mod.bad_tid == 0, "threaded loadNeededValues: every thread id passed to the model lies in [0, num_threads - 1]");
     final_checks(grid, mod, "loadNeededValues addon");
   }
   fpsym_finish(); return 0;
